@@ -7,6 +7,7 @@ package graphdb
 
 //@ func makeZombiePubkeys
 //@   props C20
+//@   bounds-safe
 //@   let older1 = e1 != nil && e2 != nil && ret(Before)
 //@   ensures e1 == nil && e2 == nil ==> result0 == node1 && result1 == node2
 //@   ensures (e1 == nil && e2 != nil) || older1 ==> result0 == node1 && forall(i, 0, 33, result1[i] == 0)
